@@ -68,10 +68,17 @@ Theorem impl_ctx_value_any F G a' t' e :
   arg_ann (ann_ok F G) G TAny (EAny a' t') = true -> erase G a' = Some e -> TW.uniform e = true ->
   exists shown, T.check (S.CAssign S.SAny) e = T.Accept T.TAny shown.
 Proof.
-  unfold arg_ann. intros H He Hu.
-  apply andb_true_iff in H as [H _]. apply andb_true_iff in H as [H _]. apply andb_true_iff in H as [_ H].
-  destruct (sty_is_inv _ _ _ H) as (e' & k & s & He' & Hs & Ht). rewrite He in He'. inversion He'; subst e'.
-  exact (TW.impl_value_any e k s Hu Hs).
+  unfold arg_ann. intros H He Hu. apply orb_true_iff in H as [H|H].
+  - apply andb_true_iff in H as [H _]. apply andb_true_iff in H as [H _]. apply andb_true_iff in H as [_ H].
+    destruct (sty_is_inv _ _ _ H) as (e' & k & s & He' & Hs & Ht). rewrite He in He'. inversion He'; subst e'.
+    exact (TW.impl_value_any e k s Hu Hs).
+  - (* the defaulted empty literal:  print []  *)
+    unfold zero_any, zero_lit in H. apply andb_true_iff in H as [H _].
+    destruct a'; try discriminate.
+    + destruct es; [|discriminate]. simpl in He. inversion He; subst e.
+      exact (TW.impl_value_any (S.EArr []) Sp.KConst S.SEmptyArr Hu eq_refl).
+    + destruct pairs; [|discriminate]. simpl in He. inversion He; subst e.
+      exact (TW.impl_value_any (S.EMap []) Sp.KConst S.SEmptyMap Hu eq_refl).
 Qed.
 
 (* range operand: the loop variable gets the type Static expects *)
